@@ -4,6 +4,7 @@ import core, lib, errdisc
 from props import shared
 from core import call_matches, call_names, op_place, backward_slice
 
+CFG_ONLY = ['9s enact-failure-recorded db::Db::enact_logs']      # the stepping API exists only with the `instrumentation` feature
 LEVEL = 'other'
 FLOOR = 40
 EXPLANATION = ('K6a over the whole crate: every call site whose result type carries parity_db::Error / io::Error / a thread result is classified; it must be '
@@ -110,6 +111,23 @@ def run(ctx):
         ctx.ob('2f later-commits-refused', 'K1-must-pass', cr.path, 'with a background error recorded every path through commit_raw returns Error::Background', w is None, '' if w is None else lib.short_path(cr, w))
     # ------------------------------------------------------------ 2g. which I/O error may be taken for "end of data"
     shared.eof_is_the_only_end_of_data(ctx, '2')
+    # a failed enactment leaves the log reader in the middle of a record. kill_logs (Db::drop) resumes enactment unless bg_err is
+    # set - so whoever calls DbInner::enact_logs outside the shutdown / open paths has to record its failure there. The workers do
+    # (their result goes to store_err); the stepping wrapper of the instrumentation build hands the error to its caller only (F48)
+    callers = sorted(F.direct_callers_of('db::DbInner::enact_logs'))
+    own = {'db::DbInner::kill_logs', 'db::DbInner::replay_all_logs', 'db::DbInner::open', 'db::Db::open_inner'}
+    n9 = 0
+    for c in callers:
+        if lib.strip_closures(c) in own:
+            continue
+        n9 += 1
+        # the failure is recorded if the caller (or the function that runs it, for a worker body) hands a Result to store_err
+        up = {c} | set(F.transitive_callers({c}))
+        rec = any(F.body(u) is not None and F.body(u).call_sites('db::DbInner::store_err') for u in up)
+        ctx.ob('9s enact-failure-recorded %s' % lib.strip_closures(c), 'K9-agreement', c,
+               'a caller of DbInner::enact_logs outside open / shutdown records a failure in bg_err (store_err), so that Db::drop does not resume enactment from the middle of the failed record',
+               rec, 'the error is only returned to the caller; kill_logs will read on from the middle of the record')
+    ctx.ob('9s0 enact-callers', 'anchor', 'db::DbInner::enact_logs', 'the callers of DbInner::enact_logs were found (commit worker; stepping wrapper in the instrumentation build)', n9 >= 1, str(callers))
     shared.torn_record_not_handed_over(ctx, '2')        # a failed append never reaches the non-validating applier
     shared.failed_cleanup_keeps_queue_order(ctx, '2')   # a failed truncation does not let newer logs be truncated first
     # ------------------------------------------------------------ 3. informational: I/O calls outside try_io!
